@@ -62,6 +62,9 @@ def configs(tier, seed):
     out.append(_mk(True, False, 1, 1, None, 7 if q else 10, depth=3))
     out.append(_mk(False, True, 1, 2, None, 6 if q else 9, depth=3))
     out.append(_mk(True, False, 1, 1, 2, 6 if q else 9, width=4))
+    # granules wider than one bit together with read_on_resp (the forwarding network has its own mask expansion)
+    out.append(_mk(True, True, 1, 1, 2, 6 if q else 9, width=4))
+    out.append(_mk(False, True, 1, 1, 2, 6 if q else 9, width=4))
     # three write ports (not a power of two) on the ILVT-based memory types
     out.append(_mk(False, False, 1, 3, None, 6 if q else 8, mem="MultiportXORILVTMemory"))
     if q:
